@@ -248,7 +248,11 @@ def requirements(req1: int, opt1: int, cat1: int, req2: int, opt2: int, cat2: in
     rq, op, ct = [(req1, opt1, cat1), (req2, opt2, cat2)][qe]
     want_req = [n for i, n in enumerate(ATTRS) if (rq >> i) & 1]
     want_opt = [n for i, n in enumerate(ATTRS) if not (rq >> i) & 1 and (op >> i) & 1]
-    ok = (ar is not None) and ([a["name"] for a in ar["required"]] == want_req) and ([a["name"] for a in ar["optional"]] == want_opt)
+    if not want_req and not want_opt:
+        # an AttributeConsumingService without RequestedAttribute is not schema-valid; 'declares nothing' may come back as None or as empty lists
+        ok = (ar is None) or (ar["required"] == [] and ar["optional"] == [])
+    else:
+        ok = (ar is not None) and ([a["name"] for a in ar["required"]] == want_req) and ([a["name"] for a in ar["optional"]] == want_opt)
     ok = ok and (sorted(ec or []) == sorted(c for i, c in enumerate(CATS) if (ct >> i) & 1))
     return ok, True, "ar=%r ec=%r" % (ar, ec)
 
